@@ -649,7 +649,7 @@ def judge_trace(ctx, module, cfg, trace_path, nchunks=NCPU, boundary_key='"e":"r
 
     def one(ch):
         p, first = ch
-        r = tlc(module, cfg, workers=1, env={"TRACE": p}, timeout=timeout, dfs=dfs, tag=module + "_j")
+        r = tlc(module, cfg, workers=1, env={"TRACE": p}, timeout=timeout, dfs=dfs, tag=module + "_j", xmx="3g")
         v = _verdict_lines(r.out)
         if r.rc != 0 and "VERDICT" not in v and "STUCK" not in v:
             raise Infra("trace judge %s failed on %s (rc=%d):\n%s" % (module, p, r.rc, "\n".join(r.out.splitlines()[-40:])))
